@@ -1,9 +1,105 @@
+/-
+C02 — the B+ tree keeps its balance/order invariants and frees exactly what it allocates.
+Property theorems over the model `TlxVerif/Model/C01*.lean` (shared with C01).
+
+`TreeInv` is the model-level content of `BTree::verify()`: equal leaf depth and consistent `level`
+fields, every non-root node between half full and full (root leaf non-empty, root inner node with a
+key), `slotuse + 1` children, entries in key order within and across nodes, every separator
+equivalent to the largest key below it, `stats_` equal to a recount.  The leaf chain of the model
+is by construction the left-to-right leaf sequence (pointer linkage: trusted base + harness).
+-/
 import TlxVerif.Model.C01Tree
 import TlxVerif.Model.C01Erase
+import TlxVerif.Proofs.C01Main
 namespace TlxVerif.C02
 open TlxVerif.C01
 
-theorem ledger_add_zero (a : Ledger) : a.add {} = a := by
-  cases a; simp [Ledger.add]
+variable {K V : Type}
+
+/-- the invariant holds for a freshly constructed container -/
+theorem inv_init (p : Params K) : TreeInv p ({} : Tree K V) := treeInv_empty p
+
+/-- `insert` (all of `insert_start`/`insert_descend`/`split_leaf_node`/`split_inner_node`) is total on
+states satisfying the invariant: no out-of-range slot, no key read from an empty node -/
+theorem insert_defined (p : Params K) (pv : p.Valid) (t : Tree K V) (ht : TreeInv p t) (k : K) (v : V) :
+    ∃ res, insert p t k v = some res := insert_total p pv t ht.1 k v
+
+/-- `insert` preserves the invariant, for every capacity ≥ 4, both searches, every strict weak order -/
+theorem inv_insert (p : Params K) (pv : p.Valid) (sw : StrictWeak p.lt) (t : Tree K V) (ht : TreeInv p t)
+    (k : K) (v : V) (res : InsResult K V) (hres : insert p t k v = some res) : TreeInv p res.tree :=
+  insert_treeInv p pv sw t ht k v res hres
+
+/-- allocation ledger of `insert`: the nodes allocated are exactly the nodes by which the tree grew,
+nothing is freed; with `TreeInv` (stats = recount) this keeps `allocs − frees = node count` -/
+theorem insert_ledger (p : Params K) (pv : p.Valid) (t : Tree K V) (ht : TreeInv p t) (k : K) (v : V)
+    (res : InsResult K V) (hres : insert p t k v = some res) :
+    res.tree.nLeaves = t.nLeaves + res.ledger.leafAlloc ∧ res.tree.nInner = t.nInner + res.ledger.innerAlloc ∧
+    res.ledger.leafFree = 0 ∧ res.ledger.innerFree = 0 :=
+  (insert_treeShape p pv t ht.1 k v res hres).2
+
+/-- `stats_` of a state satisfying the invariant is the recount of the structure -/
+theorem stats_eq_recount (p : Params K) (t : Tree K V) (ht : TreeInv p t) :
+    t.stats.leaves = t.nLeaves ∧ t.stats.inner = t.nInner ∧ t.stats.size = t.toList.length := by
+  obtain ⟨hs, _, _⟩ := ht
+  unfold TreeShape at hs
+  cases hroot : t.root with
+  | none => rw [hroot] at hs; simp [hs, Tree.nLeaves, Tree.nInner, Tree.toList, hroot]
+  | some r => rw [hroot] at hs; simp [hs.2.1, hs.2.2.1, hs.2.2.2, Tree.nLeaves, Tree.nInner, Tree.toList, hroot]
+
+/-- `clear()` returns every node (as counted by `stats_`, hence by the structure) and leaves the
+empty tree, which satisfies the invariant -/
+theorem clear_ledger (p : Params K) (t : Tree K V) (ht : TreeInv p t) :
+    TreeInv p (clear t).1 ∧ (clear t).1.root = none ∧
+    (clear t).2.leafFree = t.stats.leaves ∧ (clear t).2.innerFree = t.stats.inner ∧
+    (clear t).2.leafAlloc = 0 ∧ (clear t).2.innerAlloc = 0 := by
+  have hst := stats_eq_recount p t ht
+  unfold clear
+  cases hroot : t.root with
+  | none =>
+    simp only
+    have : t.stats = {} := by have := ht.1; unfold TreeShape at this; rw [hroot] at this; exact this
+    refine ⟨ht, hroot, ?_, ?_, ?_, ?_⟩ <;> simp [this]
+  | some r =>
+    simp only
+    refine ⟨treeInv_empty p, ?_, hst.1.symm, hst.2.1.symm, ?_, ?_⟩ <;> first | rfl | trivial
+
+/-- over a whole life "construct; any number of inserts; destroy" every allocated node is freed
+exactly once: the sum of the insert ledgers' allocations equals what `clear()` (the destructor) frees -/
+theorem lifetime_balance (p : Params K) (pv : p.Valid) (sw : StrictWeak p.lt) :
+    ∀ (ops : List (K × V)) (t : Tree K V) (la ia : Nat), TreeInv p t → t.nLeaves = la → t.nInner = ia →
+      ∃ t' la' ia', runInsertsLedger p t ops la ia = some (t', la', ia') ∧ TreeInv p t' ∧
+        (clear t').2.leafFree = la' ∧ (clear t').2.innerFree = ia' := by
+  intro ops
+  induction ops with
+  | nil =>
+    intro t la ia ht h1 h2
+    have hst := stats_eq_recount p t ht
+    have hc := clear_ledger p t ht
+    exact ⟨t, la, ia, rfl, ht, by rw [hc.2.2.1]; omega, by rw [hc.2.2.2.1]; omega⟩
+  | cons op ops ih =>
+    intro t la ia ht h1 h2
+    obtain ⟨k, v⟩ := op
+    obtain ⟨res, hres⟩ := insert_defined p pv t ht k v
+    have hinv := inv_insert p pv sw t ht k v res hres
+    have hl := insert_ledger p pv t ht k v res hres
+    obtain ⟨t', la', ia', h3, h4, h5, h6⟩ := ih res.tree (la + res.ledger.leafAlloc) (ia + res.ledger.innerAlloc) hinv
+      (by omega) (by omega)
+    exact ⟨t', la', ia', by simp only [runInsertsLedger, hres]; exact h3, h4, h5, h6⟩
+
+-- OPEN: inv_erase — `eraseOne` / `eraseIter` (Model/C01Erase.lean: underflow case table, merge_*,
+--   shift_left_*, shift_right_*, root collapse) preserve `TreeInv` and free exactly the nodes by which
+--   the tree shrinks.  Transliterated and checked structurally against the implementation (incl. stats_
+--   and the per-operation free counts) on every run; not yet proved.
+def inv_erase_statement (p : Params K) : Prop :=
+  ∀ (t : Tree K V) (k : K), TreeInv p t →
+    ∃ res, eraseOne p t k = some res ∧ TreeInv p res.tree ∧
+      res.tree.nLeaves + res.ledger.leafFree = t.nLeaves ∧ res.tree.nInner + res.ledger.innerFree = t.nInner
+
+-- OPEN: inv_bulk_load — `bulkLoad` of a sorted range yields a state satisfying `TreeInv` whose ledger
+--   equals its node count (the `n / (parts - i)` distribution keeps every node at least half full).
+def inv_bulk_load_statement (p : Params K) : Prop :=
+  ∀ (es : List (K × V)), SortedE p.lt es →
+    ∃ t l, bulkLoad p es = some (t, l) ∧ TreeInv p t ∧ t.toList = es ∧
+      l.leafAlloc = t.nLeaves ∧ l.innerAlloc = t.nInner
 
 end TlxVerif.C02
